@@ -311,7 +311,7 @@ inductive Res (α : Type) where
   | error (e : EvalErr)
   | panic
   | fuel
-  deriving Repr
+  deriving Repr, DecidableEq
 
 def Res.bind {α β : Type} (r : Res α) (f : α → Res β) : Res β :=
   match r with
@@ -538,7 +538,7 @@ inductive Outcome where
   | evalError (e : EvalErr)
   | panic
   | fuel
-  deriving Repr
+  deriving Repr, DecidableEq
 
 /-- `ast::parse(PeekableTokens::from(expression))` -/
 def parse (src : List Char) : Except SynErr (List Ast) :=
